@@ -24,12 +24,19 @@ import (
 )
 
 const (
-	repoDir   = "/repo"
-	modPath   = "github.com/blevesearch/bleve/v2"
-	go126Bin  = "/opt/veriftools/go1.26.8/bin"
+	modPath  = "github.com/blevesearch/bleve/v2"
+	go126Bin = "/opt/veriftools/go1.26.8/bin"
 )
 
+// repoDir is /repo for every registered check; VERIF_REPO points the tool at a scratch worktree
+// when a seeded change is tried out without touching /repo (development only).
+var repoDir = "/repo"
+
 var verifDir = "/verif"
+
+// evidenceDir: where evidence files go (default <verifDir>/evidence); trial runs against scratch
+// worktrees write elsewhere so that committed evidence only ever comes from /repo.
+var evidenceDir = ""
 
 type TierSpec struct {
 	Params       map[string]int `json:"params"`
@@ -81,6 +88,12 @@ func main() {
 	}
 	if d := os.Getenv("VERIF_DIR"); d != "" {
 		verifDir = d
+	}
+	if d := os.Getenv("VERIF_REPO"); d != "" {
+		repoDir = d
+	}
+	if d := os.Getenv("VERIF_EVIDENCE_DIR"); d != "" {
+		evidenceDir = d
 	}
 	os.Setenv("PATH", go126Bin+":"+os.Getenv("PATH"))
 	if pf := os.Getenv("VERIF_CPUPROFILE"); pf != "" {
@@ -509,6 +522,9 @@ func cmdCheck(args []string) int {
 					}
 					// keep the replay file
 					dst := filepath.Join(verifDir, "replays", id)
+					if evidenceDir != "" {
+						dst = filepath.Join(evidenceDir, "replays", id)
+					}
 					os.MkdirAll(dst, 0o755)
 					final := filepath.Join(dst, filepath.Base(p.file))
 					raw, _ := os.ReadFile(p.file)
@@ -857,8 +873,12 @@ func writeEvidence(id, tier string, seed int, reports []*harnessReport, samples 
 		ev["assumptions"] = []string{}
 	}
 	raw, _ := json.MarshalIndent(ev, "", " ")
-	os.MkdirAll(filepath.Join(verifDir, "evidence"), 0o755)
-	os.WriteFile(filepath.Join(verifDir, "evidence", id+".json"), raw, 0o644)
+	ed := evidenceDir
+	if ed == "" {
+		ed = filepath.Join(verifDir, "evidence")
+	}
+	os.MkdirAll(ed, 0o755)
+	os.WriteFile(filepath.Join(ed, id+".json"), raw, 0o644)
 }
 
 func cmdReplay(args []string) int {
